@@ -62,7 +62,16 @@ Definition Om : zops term := {|
           | None => Panic 72
           end);
   q_buf_cols := fun w => Z.of_nat (bcols (buf w));
-  q_translate := fun cs c => ores (c' <- translate cs (Z.to_N c) ;; Ok (Z.of_N c'))
+  q_translate := fun cs c => ores (c' <- translate cs (Z.to_N c) ;; Ok (Z.of_N c'));
+  op_buf_resize := fun w c r cc cr =>
+    ores ('(b, (x, y)) <- buf_resize (buf w) (Z.to_nat c) (Z.to_nat r) (Z.to_nat cc) (Z.to_nat cr) ;;
+          Ok (w <| buf := b |>, (Z.of_nat x, Z.of_nat y)));
+  q_sctx_col := fun w => Z.of_nat (sc_col (sctx w));
+  q_sctx_row := fun w => Z.of_nat (sc_row (sctx w));
+  q_sctx_org := fun w => sc_origin (sctx w);
+  q_sctx_awm := fun w => sc_awm (sctx w);
+  q_xtw := fun w => xtw w;
+  q_active := fun w => active w
 |}.
 
 Definition wres (r : res term) : option (zt * term * bool) :=
@@ -83,6 +92,7 @@ Ltac nrm_w :=
          N.eqb N.to_nat Nat.sub Nat.add Nat.min Nat.max Nat.leb Nat.ltb Nat.eqb Nat.lt andb orb negb
          buf_scroll_up buf_scroll_down buf_print buf_insert buf_delete buf_erase buf_wrap
          dirty_extend dirty_add tabs_set tabs_unset tabs_after tabs_before translate get_row nth_error
+         buf_resize dirty_resize buffer_new tabs_contract tabs_expand Z.compare Nat.compare
          full_model zput_opaque wres zabs wabs].
 
 Ltac z2n_w :=
@@ -135,15 +145,29 @@ Ltac same_calls :=
            end
          end.
 
+(** split on a three-way comparison *)
+Ltac brk_cmp :=
+  match goal with
+  | |- context [match (?a ?= ?b)%Z with Eq => _ | Lt => _ | Gt => _ end] => destruct (Z.compare_spec a b)
+  | |- context [match (?a ?= ?b)%nat with Eq => _ | Lt => _ | Gt => _ end] => destruct (Nat.compare_spec a b)
+  end.
+
+Ltac split_pairs :=
+  repeat match goal with
+         | p : (buffer * (nat * nat))%type |- _ => destruct p as [? [? ?]]
+         end.
+
+(** equality of records (possibly nested) whose fields differ by arithmetic *)
+Ltac flds := first [ reflexivity | lia | progress f_equal; flds ].
+
 Ltac w_fin :=
   first [ reflexivity
         | exfalso; lia
-        | f_equal; apply pair_equal_spec; split;
-          [ apply pair_equal_spec; split; f_equal; try reflexivity; lia | try reflexivity; lia ] ].
+        | f_equal; repeat (apply pair_equal_spec; split); flds ].
 
 Ltac w_loop :=
   unfold wres, zabs, wabs; nrm_w; z2n_w;
-  repeat (first [ brk1 | same_calls; brk_w ]; try (exfalso; lia); nrm_w; z2n_w);
+  repeat (first [ brk1 | brk_cmp | same_calls; brk_w ]; split_pairs; try (exfalso; lia); nrm_w; z2n_w);
   w_fin.
 
 Ltac w_tie2 H :=
@@ -337,6 +361,42 @@ Proof.
   - trivial.
 Qed.
 
+(** * save / restore cursor, buffer switching, reflow *)
+Lemma w_save_cursor_eq t : ZW t -> w_save_cursor Om (zabs t) (wabs t) = wres (Ok (save_cursor t)).
+Proof. intros H. w_tie t H. Qed.
+
+Lemma w_restore_cursor_eq t : ZW t -> w_restore_cursor Om (zabs t) (wabs t) = wres (Ok (restore_cursor t)).
+Proof. intros H. w_tie t H. Qed.
+
+Lemma w_switch_to_alternate_buffer_eq t : ZW t ->
+  w_switch_to_alternate_buffer Om (zabs t) (wabs t) = wres (switch_to_alternate_buffer t).
+Proof. intros H. w_tie t H. Qed.
+
+Lemma w_switch_to_primary_buffer_eq t : ZW t ->
+  w_switch_to_primary_buffer Om (zabs t) (wabs t) = wres (switch_to_primary_buffer t).
+Proof. intros H. w_tie t H. Qed.
+
+Lemma w_reflow_eq t : ZW t -> w_reflow Om (zabs t) (wabs t) = wres (reflow t).
+Proof. intros H. w_tie t H. Qed.
+
+(** the scalar facts survive these steps *)
+Lemma ZW_save t : ZW t -> ZW (save_cursor t).
+Proof. destruct t. exact (fun H => H). Qed.
+Lemma ZW_restore t : ZW t -> ZW (restore_cursor t).
+Proof. destruct t. exact (fun H => H). Qed.
+Lemma ZW_switch_alt t t' : ZW t -> switch_to_alternate_buffer t = Ok t' -> ZW t'.
+Proof.
+  destruct t. unfold switch_to_alternate_buffer, mark_range, bind. destruct active; cbn.
+  - destruct (dirty_extend _ _ _); intros H E; [|discriminate]. injection E as <-. exact H.
+  - intros H E. injection E as <-. exact H.
+Qed.
+Lemma ZW_switch_pri t t' : ZW t -> switch_to_primary_buffer t = Ok t' -> ZW t'.
+Proof.
+  destruct t. unfold switch_to_primary_buffer, mark_range, bind. destruct active; cbn.
+  - intros H E. injection E as <-. exact H.
+  - destruct (dirty_extend _ _ _); intros H E; [|discriminate]. injection E as <-. exact H.
+Qed.
+
 (** * opaque steps, DECSET / DECRST *)
 Lemma zput_zabs_wabs t : zput (zabs t) (wabs t) = t.
 Proof. destruct t. unfold zput, zabs, wabs, zzero. nrm_w. z2n_w. reflexivity. Qed.
@@ -359,10 +419,10 @@ Ltac full_steps :=
           cbn [zb]);
   cbn [wres]; reflexivity.
 
-Lemma w_sc_eq t : w_sc Om (zabs t) (wabs t) = wres (Ok (save_cursor t)).
-Proof. unfold w_sc. full_steps. Qed.
-Lemma w_rc_eq t : w_rc Om (zabs t) (wabs t) = wres (Ok (restore_cursor t)).
-Proof. unfold w_rc. full_steps. Qed.
+Lemma w_sc_eq t : ZW t -> w_sc Om (zabs t) (wabs t) = wres (Ok (save_cursor t)).
+Proof. intros H. unfold w_sc. rewrite w_save_cursor_eq by exact H. reflexivity. Qed.
+Lemma w_rc_eq t : ZW t -> w_rc Om (zabs t) (wabs t) = wres (Ok (restore_cursor t)).
+Proof. intros H. unfold w_rc. rewrite w_restore_cursor_eq by exact H. reflexivity. Qed.
 Lemma w_ris_eq t : w_ris Om (zabs t) (wabs t) = wres (Ok (hard_reset_gen t)).
 Proof. unfold w_ris. full_steps. Qed.
 Lemma w_decstr_eq t : w_decstr Om (zabs t) (wabs t) = wres (Ok (soft_reset_gen t)).
@@ -376,14 +436,31 @@ Proof.
   rewrite Hx in E2. cbn [foldM] in E2. unfold bind in E2. rewrite E in E2. congruence.
 Qed.
 
+(** one composed step: rewrite with a tie equation, split on the model's result *)
+Ltac cstep L :=
+  rewrite L by eauto using ZW_save, ZW_restore, ZW_switch_alt, ZW_switch_pri; unfold bind; cbn [wres zb];
+  try match goal with
+      | |- ?L = _ =>
+        match L with
+        | context [match ?m with Ok _ => _ | Panic _ => _ end] =>
+          lazymatch m with Ok _ => fail | _ => destruct m eqn:? end
+        | context [wres ?m] =>
+          lazymatch m with Ok _ => fail | _ => destruct m eqn:? end
+        end
+      end;
+  cbn [wres zb]; try reflexivity.
+
 Lemma w_decset_eq t ms : TInv t -> w_decset Om (zabs t) (wabs t) ms = wres (foldM decset_one ms t).
 Proof.
   intros HT. unfold w_decset. rewrite <- (map_id ms) at 1.
   rewrite (zfor_tie (fun x => x) ms _ decset_one TInv).
   - destruct (foldM decset_one ms t); reflexivity.
   - intros t0 m H0. pose proof (TInv_ZW t0 H0) as H.
-    destruct m; cbn [decset_one];
-      lazymatch goal with |- context [op_full] => full_steps | _ => w_tie t0 H end.
+    destruct m; cbn [decset_one].
+    1-4: w_tie t0 H.
+    + cstep w_switch_to_alternate_buffer_eq. cstep w_reflow_eq.
+    + cstep w_save_cursor_eq.
+    + cstep w_save_cursor_eq. cstep w_switch_to_alternate_buffer_eq. cstep w_reflow_eq.
   - exact (step_TInv decset_one Decset (fun _ _ => eq_refl)).
   - exact HT.
 Qed.
@@ -394,9 +471,73 @@ Proof.
   rewrite (zfor_tie (fun x => x) ms _ decrst_one TInv).
   - destruct (foldM decrst_one ms t); reflexivity.
   - intros t0 m H0. pose proof (TInv_ZW t0 H0) as H.
-    destruct m; cbn [decrst_one];
-      lazymatch goal with |- context [op_full] => full_steps | _ => w_tie t0 H end.
+    destruct m; cbn [decrst_one].
+    1-4: w_tie t0 H.
+    + cstep w_switch_to_primary_buffer_eq. cstep w_reflow_eq.
+    + cstep w_restore_cursor_eq.
+    + cstep w_switch_to_primary_buffer_eq. cstep w_restore_cursor_eq. cstep w_reflow_eq.
   - exact (step_TInv decrst_one Decrst (fun _ _ => eq_refl)).
   - exact HT.
 Qed.
 
+(** * RESIZE (public) and XTWINOPS *)
+Definition wres_flag (r : res term) (b : bool) : option (zt * term * bool * bool) :=
+  match r with Ok t' => Some (zabs t', wabs t', true, b) | Panic _ => None end.
+
+(** as [nrm_w], but the reflow step stays folded on both sides *)
+Ltac nrm_c :=
+  lazy -[Z.add Z.sub Z.opp Z.mul Z.leb Z.ltb Z.eqb Z.min Z.max Z.of_nat Z.of_N Z.to_nat Z.to_N Z.le Z.lt
+         N.eqb N.to_nat Nat.sub Nat.add Nat.min Nat.max Nat.leb Nat.ltb Nat.eqb Nat.lt andb orb negb
+         buf_scroll_up buf_scroll_down buf_print buf_insert buf_delete buf_erase buf_wrap
+         dirty_extend dirty_add tabs_set tabs_unset tabs_after tabs_before translate get_row nth_error
+         buf_resize dirty_resize buffer_new tabs_contract tabs_expand Z.compare Nat.compare
+         full_model zput_opaque wres zabs wabs w_reflow reflow wres_flag].
+
+Lemma w_resize_eq t c r : ZW t -> (1 <= c)%nat -> (1 <= r)%nat ->
+  w_resize Om (zabs t) (wabs t) (Z.of_nat c) (Z.of_nat r)
+  = wres_flag (term_resize t c r) (negb ((c =? cols t)%nat && (r =? rows t)%nat)).
+Proof.
+  intros H Hc Hr. destruct t. destruct H as (Hcols & Hrows & Hacs).
+  cbn [Types.cols Types.rows Types.acs] in Hcols, Hrows, Hacs.
+  unfold w_resize, term_resize, zabs, wabs. nrm_c.
+  repeat (first [ brk1 | brk_cmp ]; try (exfalso; lia); nrm_c).
+  all: match goal with
+       | |- context [w_reflow ?O ?S ?W] =>
+         match goal with
+         | |- context [reflow ?T] =>
+           change (w_reflow O S W) with (w_reflow Om S W);
+           replace S with (zabs T) by (unfold zabs; nrm_w; z2n_w; flds);
+           replace W with (wabs T) by (unfold wabs; nrm_w; z2n_w; flds);
+           rewrite (w_reflow_eq T) by (unfold ZW; cbn [Types.cols Types.rows Types.acs]; lia)
+         end
+       end; unfold wres_flag; destruct (reflow _); cbn [wres]; nrm_c; flds.
+Qed.
+
+Lemma as_usize_pos n d : (1 <= d)%nat -> (1 <= as_usize n d)%nat.
+Proof. unfold as_usize, as_usize_gen. destruct (N.eqb_spec n 0); lia. Qed.
+
+Lemma w_xtwinops_eq t op : ZW t -> w_xtwinops Om (zabs t) (wabs t) op = wres (xtwinops t op).
+Proof.
+  intros H. unfold w_xtwinops, xtwinops.
+  replace (q_xtw Om (wabs t)) with (xtw t) by (destruct t; reflexivity).
+  destruct (xtw t); [|destruct t; reflexivity].
+  destruct op as [c r]. cbv beta iota zeta.
+  change (z_cols (zabs t)) with (Z.of_nat (cols t)). change (z_rows (zabs t)) with (Z.of_nat (rows t)).
+  rewrite !g_as_usize_eq. cbn [fst snd].
+  rewrite w_resize_eq by (first [ exact H | apply as_usize_pos, H ]).
+  unfold wres_flag. destruct (term_resize t _ _); reflexivity.
+Qed.
+
+(** the public resize operation of the Vt layer ([Vt::resize(c, r)]) *)
+Theorem tie_resize_op : forall v c r, ZW (vterm v) -> (1 <= c)%nat -> (1 <= r)%nat ->
+  match w_resize Om (zabs (vterm v)) (wabs (vterm v)) (Z.of_nat c) (Z.of_nat r) with
+  | Some (s, w, ok, _) => ok = true /\ stepM v (Resize c r) = vt_flush (v <| vterm := zput s w |>)
+  | None => exists e, stepM v (Resize c r) = Panic e
+  end.
+Proof.
+  intros v c r H Hc Hr. rewrite w_resize_eq by assumption. unfold wres_flag. cbn [stepM]. unfold bind.
+  destruct (term_resize (vterm v) c r) as [t'|e].
+  - split; [reflexivity|]. rewrite zput_zabs_wabs. reflexivity.
+  - exists e. reflexivity.
+Qed.
+Print Assumptions tie_resize_op.
